@@ -159,6 +159,8 @@ void Heap::reset(uint64_t seed) {
     blocks->clear();
     junk_seed = seed;
     st = HeapStats();
+    zero_is_null = false;
+    zero_nulls = 0;
 }
 
 uint64_t Heap::mark() const { return arena_cur; }
@@ -199,6 +201,10 @@ static void heap_violation(const char* clause, const char* detail) {
 static void* heap_alloc(uint64_t size, bool clear) {
     Heap& H = W->heap;
     W->tick("alloc");
+    if (size == 0 && H.zero_is_null) {
+        H.zero_nulls++;
+        return nullptr;
+    }
     uint64_t rounded = (size + 15) & ~15ULL;
     if (rounded == 0) rounded = 16;
     if (arena_cur + rounded + 2 * REDZONE > ARENA_SIZE) {
